@@ -1,5 +1,4 @@
 use std::fs;
-use std::io::Write;
 use std::path::{Path, PathBuf};
 use std::time::{SystemTime, UNIX_EPOCH};
 
@@ -108,19 +107,6 @@ impl AuthorityLockGuard {
         let lock_path = authority_lock_path(&data_dir);
         let meta_path = authority_meta_path(&data_dir);
 
-        #[cfg(rip_verif)]
-        rip_kernel::verif::point("auth.acquire.create");
-        let mut file = fs::OpenOptions::new()
-            .create_new(true)
-            .write(true)
-            .open(&lock_path)
-            .map_err(|err| {
-                format!(
-                    "store already has an authority (lock at {}): {err}",
-                    lock_path.display()
-                )
-            })?;
-
         let record = AuthorityLockRecord {
             #[cfg(not(rip_verif))]
             pid: std::process::id(),
@@ -129,14 +115,27 @@ impl AuthorityLockGuard {
             started_at_ms: now_ms(),
             workspace_root: workspace_root.as_ref().to_string_lossy().to_string(),
         };
-        let json =
+        let mut json =
             serde_json::to_vec(&record).map_err(|err| format!("lock record json failed: {err}"))?;
+        json.push(b'\n');
+
+        // Publish the record atomically (private file, then hard link: fails if the lock exists).
+        // A lock that is being written is never visible, so a contender that finds an unreadable
+        // lock cannot be looking at a live acquirer and clean it up as corrupt.
+        let tmp_path = dir.join(format!("{LOCK_FILE}.tmp-{}", uuid::Uuid::new_v4()));
         #[cfg(rip_verif)]
         rip_kernel::verif::point("auth.acquire.write");
-        file.write_all(&json)
-            .and_then(|()| file.write_all(b"\n"))
-            .map_err(|err| format!("write lock record failed: {err}"))?;
-        let _ = file.flush();
+        fs::write(&tmp_path, &json).map_err(|err| format!("write lock record failed: {err}"))?;
+        #[cfg(rip_verif)]
+        rip_kernel::verif::point("auth.acquire.create");
+        let linked = fs::hard_link(&tmp_path, &lock_path);
+        let _ = fs::remove_file(&tmp_path);
+        linked.map_err(|err| {
+            format!(
+                "store already has an authority (lock at {}): {err}",
+                lock_path.display()
+            )
+        })?;
 
         Ok(Self {
             lock_path,
